@@ -1314,7 +1314,7 @@ class Interp:
                     tv = self.peek(st, x[2])
                     if tv[0] == 'oarr':
                         oid = st.new_id('o')
-                        st.objs[oid] = ('oslice', tv[1], tv[2])
+                        st.objs[oid] = ('oslice', tv[1], tv[2], 0, tv[2])     # element positions stay tracked
                         return [(st, ('ref', x[1], ('O', oid, ())))]
                 return [(st, x)]
             if kind.startswith('IntToInt'):
